@@ -1010,27 +1010,9 @@ namespace bloch::runtime {
                     for (auto& p : method->params)
                         m.params.push_back(typeInfoFromAst(p->type.get()));
                     m.signature = runtimeSignatureLabel(method->name, m.params);
-                    auto& bucket = rc->methods[method->name];
-                    bucket.push_back(m);
-                    RuntimeMethod* stored = &bucket.back();
-                    if (stored->isVirtual || stored->isOverride) {
-                        RuntimeMethod* baseMethod = nullptr;
-                        if (rc->base) {
-                            auto it = rc->base->methods.find(method->name);
-                            if (it != rc->base->methods.end()) {
-                                for (auto& cand : it->second) {
-                                    if (cand.signature == stored->signature) {
-                                        baseMethod = &cand;
-                                        break;
-                                    }
-                                }
-                            }
-                        }
-                        rc->vtable[stored->signature] = stored;
-                        if (baseMethod) {
-                            rc->vtable[stored->signature] = stored;
-                        }
-                    }
+                    // The vtable is filled once all methods are in place (below): a pointer into
+                    // the bucket taken here would dangle as soon as another overload is pushed.
+                    rc->methods[method->name].push_back(m);
                 } else if (auto ctor = dynamic_cast<ConstructorDeclaration*>(member.get())) {
                     RuntimeConstructor c;
                     c.decl = ctor;
@@ -1040,6 +1022,12 @@ namespace bloch::runtime {
                 } else if (auto dtor = dynamic_cast<DestructorDeclaration*>(member.get())) {
                     rc->hasDestructor = true;
                     rc->destructorDecl = dtor;
+                }
+            }
+            for (auto& bucket : rc->methods) {
+                for (auto& stored : bucket.second) {
+                    if (stored.isVirtual || stored.isOverride)
+                        rc->vtable[stored.signature] = &stored;
                 }
             }
             if (rc->staticStorage.size() < rc->staticFields.size())
@@ -1134,27 +1122,8 @@ namespace bloch::runtime {
                 for (auto& p : method->params)
                     m.params.push_back(typeInfoFromAst(p->type.get(), localSubst));
                 m.signature = runtimeSignatureLabel(method->name, m.params);
-                auto& bucket = rc->methods[method->name];
-                bucket.push_back(m);
-                RuntimeMethod* stored = &bucket.back();
-                if (stored->isVirtual || stored->isOverride) {
-                    RuntimeMethod* baseMethod = nullptr;
-                    if (rc->base) {
-                        auto it = rc->base->methods.find(method->name);
-                        if (it != rc->base->methods.end()) {
-                            for (auto& cand : it->second) {
-                                if (cand.signature == stored->signature) {
-                                    baseMethod = &cand;
-                                    break;
-                                }
-                            }
-                        }
-                    }
-                    rc->vtable[stored->signature] = stored;
-                    if (baseMethod) {
-                        rc->vtable[stored->signature] = stored;
-                    }
-                }
+                // vtable entries are taken once the buckets are complete (see below)
+                rc->methods[method->name].push_back(m);
             } else if (auto ctor = dynamic_cast<ConstructorDeclaration*>(member.get())) {
                 RuntimeConstructor c;
                 c.decl = ctor;
@@ -1165,6 +1134,12 @@ namespace bloch::runtime {
             } else if (auto dtor = dynamic_cast<DestructorDeclaration*>(member.get())) {
                 rc->hasDestructor = true;
                 rc->destructorDecl = dtor;
+            }
+        }
+        for (auto& bucket : rc->methods) {
+            for (auto& stored : bucket.second) {
+                if (stored.isVirtual || stored.isOverride)
+                    rc->vtable[stored.signature] = &stored;
             }
         }
         if (rc->staticStorage.size() < rc->staticFields.size())
